@@ -200,7 +200,8 @@ def run_pipeline(case):
 @st.composite
 def base_specs(draw, tier):
     kind = draw(st.integers(0, 9))
-    terms = ("a", "b") if draw(st.integers(0, 3)) > 0 else ("a",)
+    # mostly letters; sometimes digits or punctuation (terminals whose upper-case form is the terminal itself; pda_to_cfg produces such grammars)
+    terms = draw(st.sampled_from([("a", "b"), ("a", "b"), ("a", "b"), ("a",), ("0", "1"), ("a", "+"), ("(", ")")]))
     if kind == 0:
         # many variables: reach the len(V) >= 26 branch of the fresh-variable helper
         n = draw(st.integers(23, 28))
@@ -218,6 +219,7 @@ def base_specs(draw, tier):
         # rules sharing a right-hand side under several variables + a unit cycle
         A, B = spec["V"][0], spec["V"][1]
         rhs = draw(st.sampled_from([["a", A, "a"], ["a", "a", "a"], [B, "a", B, "a"], ["a", "a"]]))
+        rhs = [terms[0] if x == "a" else x for x in rhs]
         spec["R"] += [[A, list(rhs)], [B, list(rhs)], [A, [B]], [B, [A]]]
         if draw(st.booleans()):
             spec["R"].append([B, []])
